@@ -1,5 +1,6 @@
 """C10 - gradient-based learners (control / data-flow clauses only)."""
 import ast
+from fractions import Fraction
 from ..model import FuncInfo, canon
 from ..engine import Engine, V, State, NOCONST
 from ..tags import TagDomain, EMPTY
@@ -753,6 +754,371 @@ def rule_lmnn_impostor_enumeration(repo, rep):
     rep.unknown(R, key + ':pairs', site(f, lp), 'append not found')
 
 
+class _Soft:
+  """Sequential interpretation of an NCA / MLKR value-and-gradient function
+  in the entry-wise algebra (ewalg).  Raises _SoftUnknown on anything outside
+  the interpreted forms."""
+
+  def __init__(self, repo, f, atoms):
+    from .. import ewalg
+    self.ew = ewalg
+    self.repo, self.f = repo, f
+    self.env = dict(atoms)
+    self.diag = {}            # name of a matrix -> EW written on its diagonal
+    self.excluded = set()     # distance matrices whose diagonal is inf
+    self.ret = None
+
+  def dn(self, e):
+    d = self.repo.dotted(self.f.module, e)
+    return canon(d) if d else None
+
+  def kw(self, call):
+    return {k.arg: ast.unparse(k.value) for k in call.keywords if k.arg}
+
+  def ev(self, e):
+    EW = self.ew.EW
+    if isinstance(e, ast.Name):
+      if e.id in self.env:
+        return self.env[e.id]
+      raise _SoftUnknown('name %s' % e.id)
+    if isinstance(e, ast.Constant) and isinstance(e.value, (int, float)) and \
+            not isinstance(e.value, bool):
+      return EW.const(Fraction(e.value).limit_denominator(10 ** 9))
+    if isinstance(e, ast.UnaryOp) and isinstance(e.op, ast.USub):
+      v = self.ev(e.operand)
+      if isinstance(v, EW):
+        return v.scale(-1)
+      if isinstance(v, tuple) and v[0] == 'D':
+        return ('negD', v[1])
+      raise _SoftUnknown('negation')
+    if isinstance(e, ast.Attribute) and e.attr == 'T':
+      v = self.ev(e.value)
+      if isinstance(v, EW):
+        return v.T()
+      if v == ('E',):
+        return ('Et',)
+      if v == ('A',):
+        return ('At',)
+      raise _SoftUnknown('transpose')
+    if isinstance(e, ast.Subscript):
+      v = self.ev(e.value)
+      st = ast.unparse(e.slice).replace(' ', '').strip('()')
+      if isinstance(v, EW) and v.shape == 'v':
+        if st in (':,np.newaxis', ':,None'):
+          return v.as_col()
+        if st in ('np.newaxis,:', 'None,:'):
+          return v.as_row()
+      if isinstance(v, tuple) and v[0] == 'lse' and \
+              st in (':,np.newaxis', ':,None'):
+        return ('lsecol', v[1])
+      raise _SoftUnknown('subscript %s' % ast.unparse(e))
+    if isinstance(e, ast.BinOp):
+      if isinstance(e.op, ast.Pow) and isinstance(e.right, ast.Constant) and \
+              e.right.value == 2:
+        v = self.ev(e.left)
+        if isinstance(v, EW):
+          return v.mul(v)
+        raise _SoftUnknown('power')
+      if isinstance(e.op, ast.MatMult):
+        return self.matprod(self.ev(e.left), self.ev(e.right))
+      a, b = self.ev(e.left), self.ev(e.right)
+      if isinstance(a, EW) and isinstance(b, EW):
+        if isinstance(e.op, ast.Add):
+          return a.add(b)
+        if isinstance(e.op, ast.Sub):
+          return a.add(b, -1)
+        if isinstance(e.op, ast.Mult):
+          return a.mul(b)
+      # -D - logsumexp(-D, axis=1)[:, None]
+      if isinstance(e.op, ast.Sub) and isinstance(a, tuple) and \
+              a[0] == 'negD' and isinstance(b, tuple) and b[0] == 'lsecol' \
+              and a[1] == b[1]:
+        return ('logsoft', a[1])
+      # c * gradient product
+      if isinstance(e.op, ast.Mult):
+        for x, y in ((a, b), (b, a)):
+          if isinstance(x, EW) and x.shape == 's' and isinstance(y, tuple) \
+                  and y[0] == 'grad':
+            return ('grad', y[1].mul(x), y[2], y[3])
+      raise _SoftUnknown('operator %s on %s' % (type(e.op).__name__,
+                                                 ast.unparse(e)[:60]))
+    if isinstance(e, ast.Call):
+      return self.call(e)
+    raise _SoftUnknown(type(e).__name__)
+
+  def matprod(self, a, b):
+    EW = self.ew.EW
+    # X A^T
+    if a == ('X',) and b == ('At',):
+      return ('E',)
+    # E^T W  /  (E^T W) X  /  W X  /  E^T (W X)
+    if a == ('Et',) and isinstance(b, EW) and b.shape == 'mat':
+      return ('EtW', b, self.pending_diag(b))
+    if isinstance(a, tuple) and a[0] == 'EtW' and b == ('X',):
+      return ('grad', EW.const(1), a[1], a[2])
+    if isinstance(a, EW) and a.shape == 'mat' and b == ('X',):
+      return ('WX', a, self.pending_diag(a))
+    if a == ('Et',) and isinstance(b, tuple) and b[0] == 'WX':
+      return ('grad', EW.const(1), b[1], b[2])
+    # S y (matrix times 1-D vector)
+    if isinstance(a, EW) and a.shape == 'mat' and isinstance(b, EW) and \
+            b.shape == 'v':
+      return EW.atom('mv[%r,%r]' % (a.key(), b.key()), 'v')
+    raise _SoftUnknown('matrix product')
+
+  def pending_diag(self, w):
+    return self.diag.get(w.key())
+
+  def call(self, e):
+    EW = self.ew.EW
+    d = self.dn(e.func)
+    kw = self.kw(e)
+    if isinstance(e.func, ast.Attribute) and d is None:
+      recv = self.ev(e.func.value)
+      m = e.func.attr
+      if m == 'dot' and len(e.args) == 1:
+        return self.matprod(recv, self.ev(e.args[0]))
+      if m == 'reshape':
+        t = ast.unparse(e).replace(' ', '')
+        if recv == ('Aflat',) and ('reshape(-1,X.shape[1])' in t or
+                                   'reshape((-1,X.shape[1]))' in t):
+          return ('A',)
+        raise _SoftUnknown('reshape')
+      if m in ('ravel', 'flatten') and not e.args:
+        return recv
+      if m == 'sum' and isinstance(recv, EW):
+        ax = kw.get('axis', ast.unparse(e.args[0]) if e.args else None)
+        keep = kw.get('keepdims') == 'True'
+        if ax is None:
+          return recv.total()
+        if ax in ('1', '-1') and recv.shape == 'mat':
+          return recv.rowsum(keep)
+        if ax == '0' and recv.shape == 'mat':
+          return recv.colsum(keep)
+        raise _SoftUnknown('sum axis %s' % ax)
+      if m == 'copy':
+        return recv
+      raise _SoftUnknown('method %s' % m)
+    if d == canon('numpy.dot') and len(e.args) == 2:
+      return self.matprod(self.ev(e.args[0]), self.ev(e.args[1]))
+    if d == canon('numpy.sum') and e.args:
+      v = self.ev(e.args[0])
+      if isinstance(v, EW):
+        ax = kw.get('axis', ast.unparse(e.args[1]) if len(e.args) > 1
+                    else None)
+        keep = kw.get('keepdims') == 'True'
+        if ax is None:
+          return v.total()
+        if ax in ('1', '-1') and v.shape == 'mat':
+          return v.rowsum(keep)
+        if ax == '0' and v.shape == 'mat':
+          return v.colsum(keep)
+      raise _SoftUnknown('np.sum')
+    if d == canon('numpy.square') and len(e.args) == 1:
+      v = self.ev(e.args[0])
+      if isinstance(v, EW):
+        return v.mul(v)
+    if d == canon('sklearn.metrics.pairwise_distances') and e.args and \
+            self.ev(e.args[0]) == ('E',) and kw.get('squared') == 'True':
+      return ('D', id(e))
+    if d in (canon('scipy.special.logsumexp'),) and e.args and \
+            kw.get('axis') == '1':
+      v = self.ev(e.args[0])
+      if isinstance(v, tuple) and v[0] == 'negD':
+        return ('lse', v[1])
+      raise _SoftUnknown('logsumexp')
+    if d == canon('numpy.exp') and len(e.args) == 1:
+      v = self.ev(e.args[0])
+      if isinstance(v, tuple) and v[0] == 'logsoft':
+        if v[1] not in self.excluded:
+          raise _SoftDifferent('the soft-max is taken before the point '
+                               'itself is excluded (no np.fill_diagonal(., '
+                               'inf) on the distances)')
+        return EW.atom('S', 'ij')
+      raise _SoftUnknown('exp')
+    raise _SoftUnknown('call %s' % ast.unparse(e.func))
+
+  def run(self, body):
+    EW = self.ew.EW
+    for s_ in body:
+      if isinstance(s_, ast.Expr) and isinstance(s_.value, ast.Constant):
+        continue
+      if isinstance(s_, ast.If):
+        # verbose reporting only
+        if 'verbose' in ast.unparse(s_.test):
+          continue
+        raise _SoftUnknown('branch on %s' % ast.unparse(s_.test))
+      if isinstance(s_, ast.Assign) and len(s_.targets) == 1 and \
+              isinstance(s_.targets[0], ast.Name):
+        if 'time.time' in ast.unparse(s_.value):
+          continue
+        self.env[s_.targets[0].id] = self.ev(s_.value)
+        continue
+      if isinstance(s_, ast.AugAssign) and \
+              ast.unparse(s_.target).startswith('self.'):
+        continue
+      if isinstance(s_, ast.Expr) and isinstance(s_.value, ast.Call):
+        c = s_.value
+        if self.dn(c.func) == canon('numpy.fill_diagonal') and \
+                len(c.args) == 2:
+          tgt = self.ev(c.args[0])
+          if isinstance(tgt, tuple) and tgt[0] == 'D':
+            if ast.unparse(c.args[1]) in ('np.inf', 'numpy.inf',
+                                          "float('inf')"):
+              self.excluded.add(tgt[1])
+              continue
+            raise _SoftUnknown('diagonal of the distances set to %s'
+                               % ast.unparse(c.args[1]))
+          if isinstance(tgt, EW) and tgt.shape == 'mat':
+            v = self.ev(c.args[1])
+            if not isinstance(v, EW):
+              raise _SoftUnknown('diagonal value')
+            self.diag[tgt.key()] = v
+            continue
+        if 'flush' in ast.unparse(c.func) or 'print' in ast.unparse(c.func):
+          continue
+        raise _SoftUnknown('statement %s' % ast.unparse(s_)[:60])
+      if isinstance(s_, ast.Return):
+        if isinstance(s_.value, ast.Tuple) and len(s_.value.elts) == 2:
+          self.ret = (self.ev(s_.value.elts[0]), self.ev(s_.value.elts[1]),
+                      s_)
+        return
+      raise _SoftUnknown('statement %s' % type(s_).__name__)
+
+
+class _SoftUnknown(Exception):
+  pass
+
+
+class _SoftDifferent(Exception):
+  pass
+
+
+def rule_softmax_objectives(repo, rep):
+  R = 'R-FORM:nca-mlkr-value-and-gradient'
+  rep.rule(R, 'NCA: with S the leave-one-out soft-max of minus the squared '
+           'distances of X A^T and M the same-label mask, value = sum(M*S) '
+           'and gradient = 2 E^T (W + W^T, diagonal -colsum W) X for W = '
+           'M*S - S*rowsum(M*S); MLKR: yhat = S y, value = sum((yhat - y)^2), '
+           'gradient = 4 E^T (W + W^T, diagonal -colsum W) X for W = S * '
+           '(yhat - y)_i * (y_j - yhat_i) - as identities of the entry-wise '
+           'algebra (any spelling, temporaries, commuted factors); reference '
+           'forms frozen from the documented derivations (row sums of W '
+           'vanish, hence the Laplacian form)')
+  from ..ewalg import EW, SYMMETRIC
+  SYMMETRIC.add('M')
+  S = EW.atom('S', 'ij')
+  for key, kind in (('nca.NCA._loss_grad_lbfgs', 'nca'),
+                    ('mlkr.MLKR._loss', 'mlkr')):
+    f = astutil.inline_helpers(repo, repo.get_func(key))
+    rep.analysed(getattr(f, 'orig', f))
+    params = f.params()
+    atoms = {params[1]: ('Aflat',), 'X': ('X',)}
+    if kind == 'nca':
+      atoms[params[3]] = EW.atom('M', 'ij')
+      if len(params) > 4:
+        atoms[params[4]] = EW.atom('sign', 's')
+      M = EW.atom('M', 'ij')
+      MP = M.mul(S)
+      r = MP.rowsum(True)
+      want_val = r.total()
+      alt_val = MP.total()
+      W = MP.add(S.mul(r), -1)
+      coef = 2
+    else:
+      atoms[params[3]] = EW.atom('y', 'v')
+      y = EW.atom('y', 'v')
+      yhat = EW.atom('mv[%r,%r]' % (S.key(), y.key()), 'v')
+      a = yhat.add(y, -1)
+      want_val = a.mul(a).total()
+      alt_val = want_val
+      W = S.mul(a.as_col()).mul(y.add(yhat.as_col(), -1))
+      coef = 4
+    want_sym = W.add(W.T())
+    want_diag = W.colsum().scale(-1)
+    ev = _Soft(repo, f, atoms)
+    try:
+      ev.run(f.node.body)
+    except _SoftUnknown as u:
+      rep.unknown(R, key, site(f), 'outside the interpreted forms: %s' % u)
+      continue
+    except _SoftDifferent as d_:
+      rep.refuted(R, key, site(f), str(d_))
+      continue
+    if ev.ret is None:
+      rep.unknown(R, key, site(f), 'returned pair not found')
+      continue
+    val, grad, node = ev.ret
+    sgn = EW.atom('sign', 's') if kind == 'nca' and len(params) > 4 else \
+        EW.const(1)
+    if isinstance(val, EW) and val in (want_val.mul(sgn), alt_val.mul(sgn)):
+      rep.derived(R, key + ':value', site(f, node),
+                  sample=dict(rule=R, value=repr(val)[:200]))
+    elif isinstance(val, EW):
+      rep.refuted(R, key + ':value', site(f, node), 'the returned value is '
+                  '%r, documented %r' % (val, want_val.mul(sgn)))
+    else:
+      rep.unknown(R, key + ':value', site(f, node), 'value not derivable')
+    if not (isinstance(grad, tuple) and grad[0] == 'grad'):
+      rep.unknown(R, key + ':gradient', site(f, node), 'gradient not of the '
+                  'form c * E^T W X')
+      continue
+    c, wsym, dg = grad[1], grad[2], grad[3]
+    ok_c = c == EW.const(coef).mul(sgn)
+    ok_w = wsym == want_sym
+    ok_d = dg is not None and dg == want_diag
+    if ok_c and ok_w and ok_d:
+      rep.derived(R, key + ':gradient', site(f, node))
+    else:
+      rep.refuted(R, key + ':gradient', site(f, node), 'gradient is '
+                  '%r * E^T (%r, diagonal %r) X; documented %r * E^T (%r, '
+                  'diagonal %r) X' % (c, wsym, dg, EW.const(coef).mul(sgn),
+                                      want_sym, want_diag))
+  # the same-label mask handed to NCA's objective
+  g = repo.get_func('nca.NCA.fit')
+  md = [v for (n_, v) in guards.assignments(g.node, 'mask') if v is not None]
+  calls = [c for c in astutil.calls_in(g.node)
+           if canon(repo.dotted(g.module, c.func) or '') == MINIMIZE]
+  mname = None
+  for c in calls:
+    for k in c.keywords:
+      if k.arg == 'args' and isinstance(k.value, ast.Tuple) and \
+              len(k.value.elts) >= 2 and isinstance(k.value.elts[1],
+                                                    ast.Name):
+        mname = k.value.elts[1].id
+  md = [v for (n_, v) in guards.assignments(g.node, mname or 'mask')
+        if v is not None]
+  if not md:
+    # the mask written in place in the argument tuple (keyword or dict of
+    # optimiser parameters)
+    tuples = [k.value for c in calls for k in c.keywords if k.arg == 'args']
+    for dct in ast.walk(g.node):
+      if isinstance(dct, ast.Dict):
+        for kk, vv in zip(dct.keys, dct.values):
+          if isinstance(kk, ast.Constant) and kk.value == 'args':
+            tuples.append(vv)
+    for tp in tuples:
+      if isinstance(tp, ast.Tuple) and len(tp.elts) >= 2:
+        e1 = tp.elts[1]
+        if isinstance(e1, ast.Name):
+          md = [v for (n_, v) in guards.assignments(g.node, e1.id)
+                if v is not None] or md
+        else:
+          md = [e1]
+  t = ast.unparse(md[0]).replace(' ', '') if md else ''
+  import re as _re
+  m = _re.match(r'^(\w+)\[(:,np\.newaxis|:,None|np\.newaxis,:|None,:)\]=='
+                r'(\w+)\[(:,np\.newaxis|:,None|np\.newaxis,:|None,:)\]$', t)
+  if m and m.group(1) == m.group(3) and \
+          (':,' in m.group(2)) != (':,' in m.group(4)):
+    rep.derived(R, 'nca.NCA.fit:mask', site(g))
+  elif '!=' in t:
+    rep.refuted(R, 'nca.NCA.fit:mask', site(g), 'the mask is %s: pairs with '
+                'DIFFERENT labels are rewarded' % t)
+  else:
+    rep.unknown(R, 'nca.NCA.fit:mask', site(g), 'mask %s not recognised' % t)
+
+
 def check(repo, rep, tier):
   rule_lmnn_acceptance(repo, rep)
   rule_optimizer_handoff(repo, rep)
@@ -760,5 +1126,6 @@ def check(repo, rep, tier):
   rule_stable_softmax(repo, rep)
   rule_lmnn_objective(repo, rep)
   rule_lmnn_impostor_enumeration(repo, rep)
+  rule_softmax_objectives(repo, rep)
 
 
